@@ -78,21 +78,50 @@ def ray_model(f, w, pos: str, area: str) -> dict:
         m['cell_text'] = src(cell)
         cname = src(ap.node.args[0])
         contains = f'{area}.contains({cname})'
+        from ..guards import f_and
+        # everything in the loop happens under the condition of reaching the loop
+        pre = ('true',)
+        for e_ in w.events:
+            if e_.kind == 'call' and e_.node is lp.iter:
+                pre = strip_iter(e_.guard)
+
+        def under(text: str):
+            return f_and(pre, parse_guard(text))
         bg = strip_iter(br.guard)
         m['cut_text'] = f'break when {show(bg)}'
-        m['cut'] = prop_equiv(bg, parse_guard(f'not {contains}')) is None
+        m['cut'] = prop_equiv(bg, under(f'not {contains}')) is None
         ag = strip_iter(ap.guard)
         m['order'] = br.order < ap.order and prop_implies(ag, parse_guard(contains)) is None
-        # the append happens unless outside or a repeat of the previous cell
         ray = src(val)
-        rep_t = f'{cname} == {ray}[-1]'
-        want_cond = parse_guard(f'{contains} and not (unique and {ray} and {rep_t})')
-        want_unc = parse_guard(f'{contains} and not ({ray} and {rep_t})')
         m['dedupe_text'] = show(ag)
-        if prop_equiv(ag, want_cond) is None:
-            m['dedupe'], m['dedupe_conditional'] = True, True
-        elif prop_equiv(ag, want_unc) is None:
-            m['dedupe'] = True
+        # (a) the append happens unless outside or a repeat of the previous cell
+        rep_t = f'{cname} == {ray}[-1]'
+        cands = [(f'{ray} and {rep_t}', True)]
+        # (b) ... or a cell seen before, kept in a set that every appended cell enters
+        for n_ in w.defs:
+            d_ = w.sole_binding(n_)
+            if d_ is None or d_[0] != 'value' or src(d_[1]) not in ('set()',):
+                continue
+            seen_t = f'{cname} in {n_}'
+            uses = [e_ for e_ in w.events if e_.kind == 'call'
+                    and isinstance(e_.node.func, ast.Attribute)
+                    and src(e_.node.func.value) == n_]
+            adds = [e_ for e_ in uses if e_.node.func.attr == 'add' and id(e_.node) in inside
+                    and [src(a_) for a_ in e_.node.args] == [cname]]
+            if len(adds) != 1 or len(uses) != 1:
+                continue
+            gadd = strip_iter(adds[0].guard)
+            always = prop_equiv(gadd, under(f'{contains} and not ({seen_t})')) is None
+            when_unique = prop_equiv(
+                gadd, under(f'{contains} and unique and not ({seen_t})')) is None
+            if always or when_unique:
+                cands.append((seen_t, always))
+        for rep_, tracked_always in cands:
+            if prop_equiv(ag, under(f'{contains} and not (unique and {rep_})')) is None:
+                m['dedupe'], m['dedupe_conditional'] = True, True
+            elif tracked_always and \
+                    prop_equiv(ag, under(f'{contains} and not ({rep_})')) is None:
+                m['dedupe'] = True
         if isinstance(cell, ast.Call) and src(cell.func) == 'Position' and len(cell.args) == 2 \
                 and all(isinstance(a, ast.Call) and src(a.func) == 'round' and len(a.args) == 1
                         for a in cell.args):
@@ -214,8 +243,24 @@ def run(index: RepoIndex, rep) -> None:
                 rep.check(un is None or (isinstance(un, ast.Constant) and un.value is True),
                           'C19.R3', g.relpath, g.short, n.lineno, src(n),
                           'a caller disables de-duplication (unique=False)', 'unique left on')
-    if n_sites < 2:
-        raise AnalysisError(f'found {n_sites} call sites of compute_ray, floor is 2')
+    if n_sites < 1:
+        raise AnalysisError('found no call site of compute_ray')
+    # both public ray sets are made of compute_ray rays (directly or through a helper)
+    rtm = index.module(RT)
+
+    def reaches(fn, seen=()) -> bool:
+        for n in ast.walk(fn.node):
+            if isinstance(n, ast.Call) and isinstance(n.func, ast.Name):
+                if n.func.id == 'compute_ray':
+                    return True
+                h = rtm.functions.get(n.func.id)
+                if h is not None and h.name not in seen and reaches(h, seen + (h.name,)):
+                    return True
+        return False
+    for name in ('compute_rays', 'compute_rays_fancy'):
+        fn = index.func(RT, name)
+        rep.check(reaches(fn, (name,)), 'C19.R3', RT, name, fn.node.lineno, name,
+                  f'{name} does not build its rays with compute_ray', f'{name} uses compute_ray')
     # ---- R4
     eff = Effects(index)
     from .c03 import memo_rules
